@@ -29,6 +29,8 @@ def run(ctx):
     per_case, nkill, njobs = fsfam.kill_runs(ctx, drv, bl)
     fsfam.judge_traces(ctx, per_case, "killstates")
     nread, nreadjobs = fsfam.reader_runs(ctx, drv, bl)
+    nslow, nslowjobs = fsfam.slow_reader_runs(ctx, drv)
+    ctx.coverage["slow_reader_runs"] = {"judged": nslow, "reader_calls_on_the_user_file": nslowjobs}
     # TwoWriters.tla: a second writer process working on the same user while the first is inside its operation - whatever the
     # interleaving, a final name never shows a torn or mixed record (WholeFiles), checked on real process pairs
     tw = [o for o in fsfam.two_writers_model(ctx, ctx.tier == "thorough") if o["cut"] not in ("statA", "done")]
